@@ -91,6 +91,7 @@ func (w *World) verifyFunc(fn *ssa.Function, c *FuncContract) (x *Exec, err erro
 			return x, fmt.Errorf("%s: requires: %v", x.curFunc, err)
 		}
 		x.assume(st, t)
+		x.assumeNote(fmt.Sprintf("precondition of %s, assumed at its entry and checked only at call sites inside functions under contract: %s", x.curFunc, truncate(cl.Text, 160)))
 	}
 	fr.entry = st.clone()
 	x.topEntryAlloc = st.alloc
